@@ -25,12 +25,13 @@ PROP = {
             "C15_suffix": "full, stronger than asked: the existing suffix may be ANY text (not only serializer output); histories may contain clear and encoding_override (the read-back pairs are then given by ops_effect, with utf8_lossy of the override's bytes); exclusion ~Known_C15_1 (F-C15-1)",
             "C15_suffix_generic": "the same over any Target satisfying the three lens laws; this is the lemma the URL-editing clause (Url::query_pairs_mut, maintainer's part) instantiates; the clause itself is NOT part of this file",
             "C15_panics": "exact characterisation of every Panic outcome of for_suffix / finish / each operation, for any Target; OutOfFuel proved impossible",
-            "C15_views": "ByteSerialize chunks concatenate to the per-byte map and are non-empty, size_hint bounds, Parse with Cow kinds agrees with ParseIntoOwned, replace_plus borrows iff there is no '+'. The Cow kind of decode()'s result (Borrowed/Owned) is modelled and compared in the correspondence but has no theorem",
+            "C15_views": "ByteSerialize chunks concatenate to the per-byte map and are non-empty, size_hint bounds, Parse with Cow kinds agrees with ParseIntoOwned, replace_plus borrows iff there is no '+'",
+            "C15_borrow": "decode() (names and values yielded by Parse) is Cow::Borrowed iff the input has no '+', no decodable escape and is valid UTF-8; its value is always utf8_lossy(percent_decode(replace_plus(input)))",
         },
     }
 
 TEXT = {
-  "level": "Machine-checked Coq theorems (11, all closed under the global context) about an executable Gallina model of the whole form_urlencoded crate (Parse::next, decode, replace_plus, ParseIntoOwned, byte_serialize iterator, Serializer over a generic Target with for_suffix / clear / append_pair / append_key_only / extend_* / encoding_override / finish): round trip for all pair lists and all append-only histories, output alphabet for all histories, totality and closed form of parse with the '&&' laws, the for_suffix theorem for an arbitrary existing suffix and an arbitrary lens-like Target, and the exact set of panics. The byte_serialized_unchanged class, the separator / plus / space literals and the panic sites are regenerated from the Rust source on every run and the table theorem re-proved. The model is tied to the code by a correspondence run (exhaustive small scopes + random, about 330 000 cases quick) of the extracted model against the crate built from /repo.",
+  "level": "Machine-checked Coq theorems (12, all closed under the global context) about an executable Gallina model of the whole form_urlencoded crate (Parse::next, decode, replace_plus, ParseIntoOwned, byte_serialize iterator, Serializer over a generic Target with for_suffix / clear / append_pair / append_key_only / extend_* / encoding_override / finish): round trip for all pair lists and all append-only histories, output alphabet for all histories, totality and closed form of parse with the '&&' laws, the for_suffix theorem for an arbitrary existing suffix and an arbitrary lens-like Target, and the exact set of panics. The byte_serialized_unchanged class, the separator / plus / space literals and the panic sites are regenerated from the Rust source on every run and the table theorem re-proved. The model is tied to the code by a correspondence run (exhaustive small scopes + random, about 330 000 cases quick) of the extracted model against the crate built from /repo.",
   "design_ref": "DESIGN.md section 8 C15, sections 4 and 6",
   "note": "Crate-level part of C15; the URL-editing clause (Url::query_pairs_mut / query_pairs) is not covered here - it is to be layered on C15_suffix_generic. Trusted: Coq kernel + vm_compute; tools/tables_c15.py; extraction (ExtrOcamlBasic only) + OCaml driver; the correspondence generators; std's from_utf8_lossy / is_char_boundary / String::truncate are modelled and cross-checked, not verified. Known finding F-C15-1: clear() panics when start_position is inside a multi-byte character (undocumented panic).",
   "technique": "Coq proof over Gallina model + table translator + extracted-model/implementation correspondence",
